@@ -4,6 +4,8 @@ J1  a pair is joined iff the keys are equal AND the two rows come from different
 J2  the join built-in zeroes every wire of a non-matching row and sorts on the flag bit before concatenating
 J3  the for-join body obeys the panic-record and environment protocols (C02-P2, C14-E4)
 J4  the number of emitted rows and the declared result size derive from the same two array sizes
+J6  layout of the rows given to the merger: tag inserted / removed at the key width, merger compares key width + 1 bits ascending,
+    tags 0 / 1, padding rows first, first array ascending, second array reversed, rows truncated to their own element width
 J5  shape of the bitonic network: power-of-two stride used for partner index and split, compare-exchange of [i] / [i+stride],
     min -> [i] and max -> [i+stride] swapped exactly on the descending edge, both halves merged in the same direction,
     sorter = sort(lower, !dir); sort(upper, dir); merge(all, dir), 2-sorter = condswap(gt(x, y), x_i, y_i) returned as (min, max)
@@ -427,5 +429,94 @@ def _ref_chain(body, op):
     return out
 
 
+def rule_j6(ctx):
+    """Layout of the rows handed to the merger."""
+    res = RuleResult("J6", "rows are bitonic on (key, tag): padding first, a ascending, b reversed; one key width for tag position, sort width and comparison")
+    body = ctx.body(MERGE)
+
+    def keys(op):
+        return {(r, tuple(p)) for (r, p) in body.trace_operand(op)}
+    ins = [(b, t) for b, t in body.calls() if mir.last_seg(mir.callee(t) or "") == "insert" and "Vec" in (mir.callee(t) or "")]
+    rem = [(b, t) for b, t in body.calls() if mir.last_seg(mir.callee(t) or "") == "remove" and "Vec" in (mir.callee(t) or "")]
+    mer = [(b, t) for b, t in body.calls() if mir.last_seg(mir.callee(t) or "") == "push_bitonic_merger"]
+    if len(ins) != 2 or len(rem) != 2 or len(mer) != 1:
+        raise AnchorMissing("J6: expected two tag insertions, two tag removals and one merger call (%d, %d, %d)" % (len(ins), len(rem), len(mer)))
+    pos = [keys(t["args"][1]) for _, t in ins + rem]
+    if all(k == pos[0] for k in pos) and pos[0]:
+        res.ok({"clause": "tag position", "verdict": "inserted and removed at the same index (the key width) in both rows"})
+    else:
+        res.bad(Finding("J6", MERGE, "tag bit inserted and removed at different positions", "the index of the tag insertion and of its removal do not derive from the same value: a payload bit is taken for the tag", rem[0][1]["sp"]))
+    # sort width = key width + 1
+    mb, mt = mer[0]
+    w_ok = False
+    for (r, p) in body.trace_operand(mt["args"][1], through={}):
+        if r[0] == "rv" and r[1] == "binop":
+            rv = body.blocks[r[2]]["stmts"][r[3]]["rv"]
+            if rv["op"].startswith("Add"):
+                for me, other in ((rv["l"], rv["r"]), (rv["r"], rv["l"])):
+                    if keys(me) == pos[0] and other["k"] == "const" and other.get("val") == 1:
+                        w_ok = True
+    if w_ok:
+        res.ok({"clause": "sort width", "verdict": "the merger compares key width + 1 bits (key and tag)"})
+    else:
+        res.bad(Finding("J6", MERGE, "merger does not compare key and tag", "push_bitonic_merger must be given key width + 1 bits so that the tag takes part in the ordering", mt["sp"]))
+    if mt["args"][2]["k"] == "const" and mt["args"][2].get("val") in (1, True):
+        res.ok({"clause": "direction", "verdict": "merged ascending"})
+    else:
+        res.bad(Finding("J6", MERGE, "merger direction", "rows are laid out for an ascending merge (padding zeros first) but the merger is not asked for ascending order", mt["sp"]))
+    # tags: constants 0 (first array) and 1 (second array); the second array's rows are pushed in reverse
+    rows = keys(mt["args"][3])
+    tagged = {}
+    for b, t in ins:
+        src = {r[1] for (r, p) in body.trace_operand(t["args"][0]) if r[0] == "call" and mir.last_seg(r[2] or "") == "compile"}
+        tagged[t["args"][2].get("val")] = (b, src)
+    if set(tagged) != {0, 1} or tagged[0][1] == tagged[1][1]:
+        res.bad(Finding("J6", MERGE, "row tags", "rows of the two arrays must be tagged with the constants 0 and 1 respectively", ins[0][1]["sp"]))
+        return res
+    revs = [(b, t) for b, t in body.calls() if mir.last_seg(mir.callee(t) or "") == "rev"]
+    order = {}
+    for tag, (b, src) in tagged.items():
+        lp = [l for l in body.loops() if b in l["body"]]
+        if not lp:
+            res.bad(Finding("J6", MERGE, "rows are not pushed in a loop", "cannot see the order of the rows", body.term(b)["sp"]))
+            return res
+        lp = min(lp, key=lambda l: len(l["body"]))
+        # is the loop's iterator a reversed range?
+        nxt = [x for x in lp["body"] if body.term(x) and body.term(x)["k"] == "call" and mir.last_seg(mir.callee(body.term(x)) or "") == "next"]
+        reversed_ = any("Rev" in (body.term(x)["args"][0].get("place", {}).get("ty", "")) or "Rev" in (mir.callee(body.term(x)) or "") for x in nxt)
+        order[tag] = (lp["header"], reversed_)
+    if order[0][1] is False and order[1][1] is True:
+        res.ok({"clause": "bitonic layout", "verdict": "rows of the first array ascending, rows of the second array reversed"})
+    else:
+        res.bad(Finding("J6", MERGE, "rows are not laid out as a bitonic sequence", "exactly the rows of the second array must be pushed in reverse order (first ascending, second descending); found reversed: a=%s b=%s" % (order[0][1], order[1][1]),
+                        body.term(tagged[1][0])["sp"]))
+    # padding before a before b
+    pads = [b for b, t in body.calls() if mir.last_seg(mir.callee(t) or "") == "push" and keys(t["args"][0]) == rows and
+            any(r[0] == "call" and mir.last_seg(r[2] or "") == "from_elem" for (r, p) in body.trace_operand(t["args"][1]))]
+    if pads and all(body.dominates(pb_, order[0][0]) or body.path(pb_, [order[0][0]]) for pb_ in pads) and not any(body.path(order[0][0], [pb_]) for pb_ in pads) \
+            and body.path(order[0][0], [order[1][0]]) and not body.path(order[1][0], [order[0][0]]):
+        res.ok({"clause": "order of the blocks", "verdict": "padding rows, then the first array, then the second"})
+    else:
+        res.bad(Finding("J6", MERGE, "padding / a / b are not pushed in this order", "zero padding must come first, then the first array, then the (reversed) second array", body.fn["sp"]))
+    # each row is cut back to its own array's element width
+    trs = [(b, t) for b, t in body.calls() if mir.last_seg(mir.callee(t) or "") == "truncate"]
+    widths = {}
+    for b, t in body.calls():
+        if mir.last_seg(mir.callee(t) or "") == "unwrap_array_size":
+            for (r, p) in body.trace_operand(t["args"][0]):
+                if r[0] == "arg":
+                    widths[r[1]] = b
+    good = 0
+    for (rb, rt), (tb, tt) in zip(sorted(rem), sorted(trs)):
+        row = keys(rt["args"][0]) & keys(tt["args"][0])
+        if row:
+            good += 1
+    if len(trs) == 2 and good == 2 and keys(trs[0][1]["args"][1]) != keys(trs[1][1]["args"][1]):
+        res.ok({"clause": "truncation", "verdict": "each row is cut back to its own array's element width"})
+    else:
+        res.bad(Finding("J6", MERGE, "rows are not cut back to their own element widths", "after removing the tag each row must be truncated to the element width of the array it came from", (trs[0][1] if trs else mt)["sp"]))
+    return res
+
+
 def run(ctx):
-    return ctx.run_rules([rule_j1, rule_j2, rule_j3, rule_j4, rule_j5])
+    return ctx.run_rules([rule_j1, rule_j2, rule_j3, rule_j4, rule_j5, rule_j6])
